@@ -39,11 +39,13 @@ Record behaviour := mkBeh {
   b_uuid_name_links    : bool;  (* new  references: a UUID-shaped NAME is resolved like any name (resolveEntityId);
                                         group members: a UUID-shaped key that is no link name is tried as a name *)
   b_replace_all_atomic : bool;  (* new  references(vector) / sources(vector) / group members(vector) validate first *)
-  b_feature_null_guard : bool   (* #14  getFeature skips features whose data link is gone *)
+  b_feature_null_guard : bool;  (* #14  getFeature skips features whose data link is gone *)
+  b_delsource_by_id    : bool   (* new (C04) Block::deleteSource(handle) deletes the source with that ID, not the root source
+                                        that happens to have the same NAME *)
 }.
 
-Definition repaired : behaviour := mkBeh true true true true true true true true true true true true true true.
-Definition code_today : behaviour := mkBeh false false false false false false false false false false false false false false.
+Definition repaired : behaviour := mkBeh true true true true true true true true true true true true true true true.
+Definition code_today : behaviour := mkBeh false false false false false false false false false false false false false false false.
 
 (** ** call arguments and results *)
 Inductive harg := HNone | HEnt (o : nat).
@@ -296,11 +298,12 @@ Definition lookup (s : db) (pk : option kind) (p : option nat) (k : kind) (key :
   end.
 
 (** lookup by handle: Block-level calls pass Identity(name, id); everything else passes the id;
-    Block::deleteSource(handle) passes the NAME *)
+    today Block::deleteSource(handle) passes the NAME (and so can delete a namesake), repaired: the id *)
 Definition lookup_h (s : db) (pk : option kind) (p : option nat) (k : kind) (e : ent) (for_delete : bool) : res (option ent) :=
   match pk with
   | Some KBlock =>
-    if for_delete && kind_eqb k KSource then Ok (block_find_key (children s p k) (e_name e))
+    if for_delete && kind_eqb k KSource then
+      Ok (block_find_key (children s p k) (if b_delsource_by_id B then eid e else e_name e))
     else Ok (block_find (children s p k) (e_name e) (eid e))
   | _ => lookup s pk p k (eid e)
   end.
@@ -971,4 +974,5 @@ Definition current_behaviour : behaviour :=
      b_esrc_by_name := false;         (* open: #24 #25 *)
      b_uuid_name_links := false;      (* open: new finding *)
      b_replace_all_atomic := false;   (* open: new finding *)
-     b_feature_null_guard := false    (* open: #14 *) |}.
+     b_feature_null_guard := false;   (* open: #14 *)
+     b_delsource_by_id := false       (* open: new finding (C04) *) |}.
